@@ -104,7 +104,7 @@ package sql
 %token PRIMARY
 %token REFERENCES
 %token REGEXP
-%token REPLACE
+%token<identifier> REPLACE
 %token RESTRICT
 %token ROLLBACK
 %token<identifier> ROWID
@@ -307,7 +307,7 @@ columnDef:
 		$$ = makeColumnDef($1, $2, $3)
 	} |
 	REPLACE typeName columnConstraintList {
-		$$ = makeColumnDef("REPLACE", $2, $3)
+		$$ = makeColumnDef($1, $2, $3)
 	}
 
 typeName:
